@@ -237,10 +237,10 @@ pub fn wakeup<const ITEMS: usize>(timed: u8, second_push: bool) {
         if !window {
             check!(notified, "C13 a tick that reports 'running' is followed by a notification once the background run has finished");
         }
-        cover!(parking_lot::VERIF_TIMEOUTS.get().clone() > 0, "timed lock attempt failed");
+        cover!(parking_lot::VERIF_TIMEOUTS.get().clone() > 0, "INFO timed lock attempt failed");
     }
-    cover!(st.running, "tick reports running");
-    cover!(!st.running, "tick reports not running");
+    cover!(st.running, "INFO tick reports running");
+    cover!(!st.running, "INFO tick reports not running");
     let _ = rayon::verif_run_pending();
     // a further item arrives while the finished run has not been collected yet: the next tick
     // both collects (changed) and starts another run (running) - and must be followed by a notify
@@ -259,7 +259,7 @@ pub fn wakeup<const ITEMS: usize>(timed: u8, second_push: bool) {
             check!(notify_count() > c1, "C13 a tick that reports 'running' is followed by a notification once the background run has finished (second tick)");
         }
     }
-    cover!(st2.running && st2.changed, "tick that both collected results and started another run");
+    cover!(st2.running && st2.changed, "INFO tick that both collected results and started another run");
     let _ = rayon::verif_run_pending();
     let st3 = tick_checked(&mut n, 10, total, 100);
     let _ = rayon::verif_run_pending();
@@ -350,6 +350,62 @@ pub fn inflight_writer<const PRE: usize, const BATCH: usize>(timed: u32, runs: u
         check!(n.snapshot().item_count() as usize == PRE + BATCH && n.snapshot().matches().len() == PRE + BATCH, "C07 once no writer is active and tick reports 'not running' the snapshot holds every injected item");
     }
     cover!(!st3.running, "quiescent at the end");
+    std::mem::forget(inj);
+    std::mem::forget(n);
+}
+
+// ---------------------------------------------------------------------------------------------
+// C06 with a NON-EMPTY pattern and two writers in flight whose reserved slots are seen by the
+// parallel scan in a given chunk order (`split`, `right_first`: the rayon shim's chunk plan).
+// The two in-flight slots are reserved by a batch writer that never publishes them (an
+// ExactSizeIterator that reports 2 items and yields none - the documented way to leave reserved
+// indices unpublished; a paused writer looks exactly the same to the worker).
+// ---------------------------------------------------------------------------------------------
+struct Never;
+impl Iterator for Never {
+    type Item = u32;
+    fn next(&mut self) -> Option<u32> {
+        None
+    }
+}
+impl ExactSizeIterator for Never {
+    fn len(&self) -> usize {
+        2
+    }
+}
+fn fill_a(v: &u32, cols: &mut [Utf32String]) {
+    let _ = v;
+    cols[0] = Utf32String::from("a");
+}
+
+pub fn inflight_order(split: usize, right_first: bool, second_pattern: u8) {
+    use crate::pattern::{CaseMatching, Normalization};
+    set_timed(0);
+    let mut n: Nucleo<u32> = Nucleo::new(Config::DEFAULT, notify_fn(), Some(1), 1);
+    let inj = n.injector();
+    unsafe {
+        *std::ptr::addr_of_mut!(PUBLISHED) = 0;
+        *std::ptr::addr_of_mut!(USE_MASK) = true;
+    }
+    inj.extend(Never, fill_a); // indices 0 and 1: reserved, never published
+    let idx = inj.push(102, fill_a);
+    set_published(idx);
+    *rayon::VERIF_CHUNK_PLAN.get() = Some((split, right_first));
+    n.pattern.reparse(0, "a", CaseMatching::Respect, Normalization::Never, false);
+    let _ = tick_checked(&mut n, 10, 0, 100);
+    let _ = rayon::verif_run_pending();
+    let _ = tick_checked(&mut n, 10, 0, 100);
+    check!(n.snapshot().matches().len() == 1, "C06 the matches are exactly the matching items among the processed ones (one published item matches)");
+    // a second pattern edit: rescoring walks the in-flight list recorded by the parallel scan
+    match second_pattern {
+        0 => n.pattern.reparse(0, "", CaseMatching::Respect, Normalization::Never, false),
+        _ => n.pattern.reparse(0, "a", CaseMatching::Respect, Normalization::Never, false),
+    }
+    let _ = tick_checked(&mut n, 10, 0, 100);
+    let _ = rayon::verif_run_pending();
+    let _ = tick_checked(&mut n, 10, 0, 100);
+    check!(n.snapshot().matches().len() == 1 && n.snapshot().matches()[0].idx == 2, "C06 after a pattern edit the snapshot still holds exactly the published matching item");
+    *rayon::VERIF_CHUNK_PLAN.get() = None;
     std::mem::forget(inj);
     std::mem::forget(n);
 }
